@@ -9,6 +9,20 @@ def wire_stream(suite):
     return {"name": suite, "gen": ["{bin}/wire", "gen", suite, "{seed}", "{tier}", "{stats}"],
             "go": ["{bin}/wire"], "lean": ["{lean}/wiredriver"]}
 
+def wire_prop(pid, theorems, suites, extra=None):
+    d = {
+        "level": "proof",
+        "audit_imports": ["SpecVerif.Props.%s" % pid, "SpecVerif.Ties"],
+        "lean_targets": ["SpecVerif.Props.%s" % pid, "SpecVerif.Ties", "wiredriver"],
+        "go_cmds": ["wire"],
+        "theorems": ["SpecVerif.%s.%s" % (pid, t) for t in theorems],
+        "ties": TIES,
+        "streams": [wire_stream(s) for s in suites],
+        "flag": WIRE_FLAG,
+    }
+    d.update(extra or {})
+    return d
+
 PROPS = {
     "C10": {
         "level": "proof",
@@ -25,4 +39,9 @@ PROPS = {
         "trusted": ["IEEE widening/narrowing/comparison are parameters of the model (FloatOps/FloatLaws); the drivers' native float operations are compared with Go's on every run"],
         "assumptions": ["float32<->float64 conversions behave as IEEE 754 (FloatLaws)", "values are in the range of their Go type"],
     },
+    "C02": wire_prop("C02", ["decoders_safe", "openValue_safe", "parseValue_safe", "parseList_safe", "parseMessage_safe",
+                             "list_accessors_safe", "message_accessors_safe", "genStructFields_safe", "genStructDecode_safe"],
+                     ["c02"], {"assumptions": ["Go slices/ints as modelled (64-bit int, no overflow below 2^63)", "index out of range on List.Get(i) with i >= Len() is caller misuse, not hostile data"]}),
+    "C13": wire_prop("C13", ["decoders_local", "parse_local", "parse_depends_only_on_value", "reparse", "fuel_irrelevant"],
+                     ["c13"], {"assumptions": ["partial: the parser/probe/open agreement clause is checked differentially and by the Go-side oracle, not by a theorem"]}),
 }
